@@ -2,8 +2,10 @@
 import random
 import warnings
 import numpy as np
-from . import core
+from . import core, pylite_tie
 from .core import Case, cD, cN, clist
+
+obligations = pylite_tie.lsq_obligations   # source-regenerated tie of least_squares (harness/pylite_tie.py)
 
 ID = "C02"
 PROPS_FILE = "Props/C02.v"
